@@ -95,6 +95,39 @@ def call(op, objs, args, entry="method"):
 
     if op in ("from_blocks", "construct", "from_fill_fn", "from_dense"):
         return (construct(op, objs, a),)
+    if op == "set_cache":
+        import symmray.abelian_core as _ac
+
+        _ac._fuseinfo_cache_maxsize = int(a["size"])
+        if "maxsectors" in a:
+            _ac._fuseinfo_cache_maxsectors = int(a["maxsectors"])
+        if a.get("clear"):
+            _ac._fuseinfos.clear()
+        return ()
+    if op == "mode_ctx":
+        before = sr.get_default_tensordot_mode()
+        inside = []
+        try:
+            with sr.default_tensordot_mode(a["mode"]):
+                inside.append(sr.get_default_tensordot_mode())
+                if "nested" in a:
+                    try:
+                        with sr.default_tensordot_mode(a["nested"]):
+                            inside.append(sr.get_default_tensordot_mode())
+                            if a.get("raise_inner"):
+                                raise RuntimeError("inner")
+                    except RuntimeError:
+                        pass
+                    inside.append(sr.get_default_tensordot_mode())
+                if a.get("raise"):
+                    raise RuntimeError("boom")
+        except RuntimeError:
+            pass
+        after = sr.get_default_tensordot_mode()
+        return ({"t": "modes", "before": str(before), "inside": [str(m) for m in inside], "after": str(after)},)
+    if op == "set_default_mode":
+        sr.set_default_tensordot_mode(None if a["mode"] == "none" else a["mode"])
+        return ({"t": "str", "v": str(sr.get_default_tensordot_mode())},)
     if op == "observe":
         from .observe import observe
 
@@ -415,6 +448,7 @@ class Recorder:
 
         cfg = prog.get("cfg", {})
         saved = (_ac._fuseinfo_cache_maxsize, _ac._fuseinfo_cache_maxsectors)
+        saved_mode = _ac._DEFAULT_TENSORDOT_MODE
         if "cache" in cfg:
             _ac._fuseinfo_cache_maxsize = int(cfg["cache"])
         if "maxsectors" in cfg:
@@ -429,3 +463,4 @@ class Recorder:
             return ses.close()
         finally:
             _ac._fuseinfo_cache_maxsize, _ac._fuseinfo_cache_maxsectors = saved
+            _ac._DEFAULT_TENSORDOT_MODE = saved_mode
